@@ -74,6 +74,16 @@ def run(ctx):
             ctx.broken.append('correspondence C16 (%s: model %s vs implementation): %d of %d cases disagree' % (fname, fn, len(bad), len(terms)))
             if not getattr(ctx, 'first_disagreement', None):
                 ctx.first_disagreement = {'file': fname, 'case_index': bad[0], 'model_term': terms[bad[0]][:3000]}
+    oterms = vf.read_lines(os.path.join(ctx.out, 'cases_oneline.txt'))
+    total += len(oterms)
+    bad, err = vf.coq_cases(ctx, 'C16e', ['Out.OneLine'], '(list N)', 'run_one_line', oterms, shard=200, ordered=True)
+    if err:
+        ctx.broken.append('correspondence cases cases_oneline.txt did not evaluate: %s' % err[-400:])
+    if bad:
+        disagreements += len(bad)
+        ctx.broken.append('correspondence C16 (oneLine of error.go vs model Out/OneLine.v one_line): %d of %d texts disagree' % (len(bad), len(oterms)))
+        if not getattr(ctx, 'first_disagreement', None):
+            ctx.first_disagreement = {'file': 'cases_oneline.txt', 'case_index': bad[0], 'model_term': oterms[bad[0]][:3000]}
     ctx.coverage.update({
         'obligations': nthm, 'discharged': ndis,
         'evaluations': s['evaluations'], 'distinct_nontrivial': s['distinct_nontrivial'],
